@@ -29,7 +29,19 @@ UNITS = {
     "": ([0, 0, 0], F(1), F(0)),
     "m/s": ([1, -1, 0], F(1), F(0)),
     "km/min": ([1, -1, 0], F(1000, 60), F(0)),
+    # equivalent units that are *not equal* as pint units (different composition)
+    "mm": ([1, 0, 0], F(1, 1000), F(0)),
+    "L/m^2": ([1, 0, 0], F(1, 1000), F(0)),
+    "Hz": ([0, -1, 0], F(1), F(0)),
+    "1/s": ([0, -1, 0], F(1), F(0)),
+    "1/min": ([0, -1, 0], F(1, 60), F(0)),
 }
+
+
+def is_conv(case, ev):
+    """does publishing this payload convert (allocate a new array)?  Only a quantity in non-equivalent units does"""
+    pu = ev.get("punits")
+    return pu is not None and UNITS[pu][1:] != UNITS[case["out_units"]][1:]
 
 
 def junit(name):
@@ -71,7 +83,7 @@ FORMS = ["shaped", "timeaxis", "flat", "list", "wrongsize", "wrongshape", "quant
 
 def gen_case(rng):
     g = rng.choice(GRIDS)
-    ou = rng.choice(["m", "km", "degC", "K", "", "m/s", "s"])
+    ou = rng.choice(["m", "km", "degC", "K", "", "m/s", "s", "mm", "mm", "Hz", "Hz", "L/m^2", "1/s"])
     compat = [u for u in UNITS if UNITS[u][0] == UNITS[ou][0]]
     iu = rng.choice(compat) if rng.random() < 0.9 else rng.choice(list(UNITS))
     scale = rng.choice([1, 1, 1, 7, 1000, 3_600_000_000])
@@ -85,8 +97,12 @@ def gen_case(rng):
             form = rng.choices(FORMS, weights=[30, 10, 14, 8, 4, 4, 8, 8, 3, 4, 3])[0]
             if g["kind"] == "nogrid" and form == "wrongsize":
                 form = "shaped"  # NoGrid fixes the rank only
-            events.append({"op": "push", "t": t, "form": form, "val": val,
-                           "punits": rng.choice(compat) if form == "foreign" else None})
+            pu = None
+            if form == "foreign" or (form in ("shared", "sharedview") and rng.random() < 0.5):
+                # half of them an equivalent spelling of the output's units (stored without conversion)
+                equiv = [u for u in compat if UNITS[u][1:] == UNITS[ou][1:]]
+                pu = rng.choice(equiv) if rng.random() < 0.5 else rng.choice(compat)
+            events.append({"op": "push", "t": t, "form": form, "val": val, "punits": pu})
             pubs.append(t)
             val += rng.randrange(1, 4)
         else:
@@ -139,8 +155,16 @@ def payload(case, ev, prev_arr):
         arr = prev_arr if form == "shared" else prev_arr[...]  # same memory (numbers untouched)
         shared = True
         obj = arr
+        if ev.get("punits") is not None:
+            # the producer wraps its state buffer in a quantity (equivalent spelling: stored as it is; other
+            # compatible units: converted, i.e. a new array)
+            units = ev["punits"]
+            obj = fm.UNITS.Quantity(arr, units)
     elif form in ("shaped", "shared", "sharedview"):
         obj = arr = base.reshape(shp) if shp else np.array(base[0])
+        if ev.get("punits") is not None:
+            units = ev["punits"]
+            obj = fm.UNITS.Quantity(arr, units)
     elif form == "timeaxis":
         obj = arr = base.reshape([1] + shp)
     elif form == "flat":
@@ -191,6 +215,7 @@ def run_impl(case):
         return None, None, err_class(e)
     prev_arr = None
     prev_buf = None
+    prev_origin = None
     buf = 0
     if case.get("mem_limit_payloads") is not None:
         shp = grid_shape(case["grid"])
@@ -204,6 +229,8 @@ def run_impl(case):
                 # the previous publication lives in a file: there is nothing in memory to alias; publish a fresh array
                 eff = dict(ev, form="shaped")
             obj, arr, desc, shared = payload(case, eff, prev_arr)
+            # which numbers the payload carries: a shared payload is the producer's previous array
+            origin = prev_origin if shared else {"val": eff["val"], "form": eff["form"]}
             if shared:
                 this_buf = prev_buf
             else:
@@ -213,13 +240,12 @@ def run_impl(case):
                             "units": desc["units"], "buf": this_buf})
             try:
                 out.push_data(obj, T(ev["t"]))
-                results.append({"ok": None, "prev_in_ram": prev_in_ram, "eff": eff})
+                results.append({"ok": None, "prev_in_ram": prev_in_ram, "eff": eff, "origin": origin})
                 prev_buf = this_buf
-                prev_arr = arr if isinstance(arr, np.ndarray) and eff["form"] not in ("list", "foreign") else None
-                if eff["form"] == "foreign" and not fm.data.tools.equivalent_units(eff["punits"], case["out_units"]):
-                    prev_arr = None
-                elif eff["form"] == "foreign":
-                    prev_arr = arr
+                prev_origin = origin
+                # the producer's own array (what a later "shared" payload aliases); whether the *stored* array is that
+                # one or a converted copy is the model's / the oracle's business
+                prev_arr = arr if isinstance(arr, np.ndarray) and eff["form"] != "list" else None
             except Exception as e:  # noqa
                 results.append({"err": err_class(e), "msg": str(e)[:120], "prev_in_ram": prev_in_ram, "eff": eff})
         else:
@@ -271,9 +297,11 @@ def oracle(case, impl):
             if "ok" in r:
                 if form in ("wrongsize", "wrongshape", "incompatible"):
                     return ("malformed payloads (wrong size/shape, incompatible units) must be refused", {"event": ev, "got": r})
-                pubs.append((ev["t"], ev))
+                org = r.get("origin") or {"val": ev["val"], "form": ev["form"]}
+                pubs.append((ev["t"], dict(ev, val=org["val"], layout=org["form"])))
             else:
-                if form in ("shaped", "timeaxis", "flat", "list", "quantity", "foreign"):
+                if form in ("shaped", "timeaxis", "flat", "list", "quantity", "foreign") or \
+                        (form in ("shared", "sharedview") and is_conv(case, ev)):
                     return ("well-formed payloads must be accepted", {"event": ev, "got": r})
                 if r["err"] != "FinamDataError":
                     return ("a refused publication must raise a data error", {"event": ev, "got": r})
@@ -309,11 +337,11 @@ def oracle(case, impl):
                 size = int(np.prod(shp)) if shp else 1
                 base = [F(k, 2) + pev["val"] for k in range(size)]
                 # value at grid multi-index i: shaped payloads are in C order; flat payloads are in grid order
-                if pev["form"] == "flat" and g["kind"] == "grid" and g["orderF"]:
+                if pev["layout"] == "flat" and g["kind"] == "grid" and g["orderF"]:
                     arr = np.array(base, dtype=object).reshape(shp, order="F")
                 else:
                     arr = np.array(base, dtype=object).reshape(shp) if shp else np.array(base, dtype=object)
-                src_u = pev["punits"] if pev["form"] == "foreign" else case["out_units"]
+                src_u = pev["punits"] if pev.get("punits") is not None else case["out_units"]
                 exp = [conv(src_u, case["in_units"], x) for x in arr.reshape(-1)]
                 if all(close(a, float(b)) for a, b in zip(got["data"], exp)):
                     ok_any = True
@@ -326,13 +354,15 @@ def oracle(case, impl):
         if ev["op"] != "push":
             continue
         ev = r.get("eff", ev)
-        if ev["form"] in ("shared", "sharedview") and prev_ok in ("shaped", "timeaxis", "flat", "quantity", "shared", "sharedview") \
+        if ev["form"] in ("shared", "sharedview") and not is_conv(case, ev) \
+                and prev_ok in ("shaped", "timeaxis", "flat", "quantity", "foreign", "shared", "sharedview") \
                 and r.get("prev_in_ram", True):
             if "ok" in r:
                 return ("publishing an array that shares memory with the previous publication is refused",
                         {"event": ev, "got": r})
         if "ok" in r:
-            prev_ok = ev["form"]
+            # a converted payload is stored as a new array: nothing can alias it
+            prev_ok = "converted" if is_conv(case, ev) else ev["form"]
     return None
 
 
